@@ -46,7 +46,7 @@ def main():
                 "confirmed": "demo.py exits 0 on the pristine tree and non-zero with the patch: %s; test suite 566 passed / 46 errors with the patch: %s"
                              % (demo_ok, tests_ok),
                 "detected_by": ("%s (exit 1 on first contact)" % prop) if code == 1 else "NOT DETECTED on first contact (exit %d)" % code,
-                "author": "independent sub-agent (round 4) given only the property texts and a scratch worktree", "source_dir": d}
+                "author": "independent sub-agent (round 5) given only the property texts and a scratch worktree", "source_dir": d}
         json.dump(meta, open(os.path.join(dst, "meta.json"), "w"), indent=1)
         print("%s <- %s demo=%s tests=%s check exit=%d" % (sid, d, demo_ok, tests_ok, code))
         for l in out.splitlines():
